@@ -20,7 +20,7 @@ REQUIRED_COUNTERS = ["compared"]
 
 
 def universe():
-    return common.py_cases(3000) + common.py_cases(800, True) + common.ph_cases(3000) + common.ph_cases(800, True)
+    return common.py_cases(3000) + common.py_cases(800, True) + common.py2_cases(800) + common.ph_cases(3000) + common.ph_cases(800, True)
 
 
 def cases(tier, seed):
@@ -48,7 +48,7 @@ def run_case(case):
     src = r["source"]
     counters = {}
     classes = set()
-    if case["kind"] == "py":
+    if case["kind"] in ("py", "py2"):
         try:
             ref = tmpl_ref.pyfmt_render(src, r["context"])
         except Exception:
